@@ -73,13 +73,18 @@ def DefaultOrEmpty (o : NbPrior ℝ) : Prop :=
 
 theorem afterCall_invariant (o : NbPrior ℝ) (sz sy sx : ℝ) (hx : 0 ≤ sx) (h : DefaultOrEmpty o) :
     DefaultOrEmpty ((o.afterCall (defaultWeights fun n : Int => (n : ℝ)) sz sy sx).setUp) := by
-  unfold NbPrior.setUp NbPrior.afterCall
-  split_ifs with hpf
-  · exact h
-  · unfold NbPrior.lazyWeights
-    split_ifs with he
-    · exact Or.inr ⟨defaultWeights_symmetric _ _ _ _, fun dz dy dx _ => defaultWeights_nonneg sz sy sx hx dz dy dx⟩
+  have hcall : DefaultOrEmpty (o.afterCall (defaultWeights fun n : Int => (n : ℝ)) sz sy sx) := by
+    unfold NbPrior.afterCall
+    split_ifs with hpf
     · exact h
+    · unfold NbPrior.lazyWeights
+      split_ifs with he
+      · exact Or.inr ⟨defaultWeights_symmetric _ _ _ _, fun dz dy dx _ => defaultWeights_nonneg sz sy sx hx dz dy dx⟩
+      · exact h
+  unfold NbPrior.setUp
+  split_ifs
+  · exact hcall
+  · exact Or.inl (show weightsEmpty emptyBox = true by decide)
 
 theorem history_invariant (l : List (ℝ × ℝ × ℝ)) (hl : ∀ s ∈ l, 0 ≤ s.2.2) (o : NbPrior ℝ) (h : DefaultOrEmpty o) :
     DefaultOrEmpty (l.foldl (fun o s => (o.afterCall (defaultWeights fun n : Int => (n : ℝ)) s.1 s.2.1 s.2.2).setUp) o) := by
@@ -157,7 +162,7 @@ theorem parsedBox_sub_paddedBox (nz ny nx : Nat) (dz dy dx : Int) (h : InBox (pa
   simp only at h ⊢
   omega
 
-/-! ### negative witness: default weights are kept when the object is set up for another voxel size -/
+/-! ### instance: default weights are recomputed when the object is set up for another voxel size (repair C09-4) -/
 
 /-- 1×2×1 image `(3, 1)` (two voxels along y) -/
 def sB : Box := ⟨0, 0, 0, 1, 0, 0⟩
@@ -185,14 +190,19 @@ theorem stale_first_call (sz sy sx : ℝ) :
 
 theorem stale_witness :
     (((NbPrior.ctor 0 false (1 : ℝ) 0 0 0).call sDflt 1 1 1 (fun _ => ())).1.setUp.call sDflt 1 2 1
-        (fun o => qValue o.pf o.w o.kappa sB o.wb sLam)).2 = 2
+        (fun o => qValue o.pf o.w o.kappa sB o.wb sLam)).2 = 1
     ∧ ((NbPrior.ctor 0 false (1 : ℝ) 0 0 0).call sDflt 1 2 1 (fun o => qValue o.pf o.w o.kappa sB o.wb sLam)).2 = 1 := by
+  have he : weightsEmpty emptyBox = true := by decide
+  have hreset : (((NbPrior.ctor 0 false (1 : ℝ) 0 0 0).afterCall sDflt 1 1 1).setUp).afterCall sDflt 1 2 1
+      = { NbPrior.ctor 0 false (1 : ℝ) 0 0 0 with wb := defaultWeightsBox false, w := sDflt 1 2 1 } := by
+    rw [stale_first_call]
+    simp [NbPrior.setUp, NbPrior.afterCall, NbPrior.lazyWeights, NbPrior.ctor, he, ctorOnly2D]
   constructor
   · show (fun o : NbPrior ℝ => qValue o.pf o.w o.kappa sB o.wb sLam)
-      (((NbPrior.ctor 0 false (1 : ℝ) 0 0 0).afterCall sDflt 1 1 1).afterCall sDflt 1 2 1) = 2
-    rw [afterCall_afterCall, stale_first_call]
+      ((((NbPrior.ctor 0 false (1 : ℝ) 0 0 0).afterCall sDflt 1 1 1).setUp).afterCall sDflt 1 2 1) = 1
+    rw [hreset]
     simp only [NbPrior.ctor]
-    rw [stale_value]; norm_num
+    rw [stale_value]; norm_num [sqrt_four]
   · show (fun o : NbPrior ℝ => qValue o.pf o.w o.kappa sB o.wb sLam) ((NbPrior.ctor 0 false (1 : ℝ) 0 0 0).afterCall sDflt 1 2 1) = 1
     rw [stale_first_call]
     simp only [NbPrior.ctor]
